@@ -97,3 +97,28 @@ Theorem typed_replay_reconstructs :
   = filter (fun t => type_ok typ (fst t)) (obs_tuples (run_history h)).
 Proof. exact typed_replay_reconstructs_lemma. Qed.
 Print Assumptions typed_replay_reconstructs.
+
+(* The same across pages: whatever the page size, the starting token and the number of requests,
+   every page of a token-following read through the ReadChanges command holds only changes that
+   are, at the time of THAT request, at least as old as the configured horizon (the command
+   passes the horizon to the backend for every request, token or not). *)
+Theorem horizon_withholds_all_pages :
+  forall typ hz ps st nows tok pages tok',
+  follow_tokens typ hz ps nows tok st = (pages, tok') ->
+  Forall2 (fun now pg => forall c, In c pg ->
+             In c (changes st) /\ type_ok typ (c_key c) = true /\ c_ts c + hz <= now)
+          (firstn (length pages) nows) pages.
+Proof. exact horizon_withholds_all_pages_lemma. Qed.
+Print Assumptions horizon_withholds_all_pages.
+
+(* non-vacuity: two old and two new changes, page size 1, horizon 1, read at time 3: two pages
+   of one old change each, then the poll with the last token returns nothing *)
+Example horizon_withholds_all_pages_nonvacuous :
+  let st := run_history
+    [ mkReq false OError OError [] [mkW k_d1 None true; mkW k_d2 None true] 1;
+      mkReq false OError OError [k_d1] [mkW (mkKey b_doc1 b_viewer [117; 115; 101; 114; 58; 98]) None true] 3 ] in
+  map (@length change) (fst (follow_tokens [] 1 1 [3; 3; 3; 3] 0 st)) = [1%nat; 1%nat]
+  /\ snd (follow_tokens [] 1 1 [3; 3; 3; 3] 0 st) = 2%nat
+  /\ fst (read_changes_cmd [] 1 3 2 1 st) = []
+  /\ length (fst (read_changes_cmd [] 0 3 2 1 st)) = 1%nat.
+Proof. vm_compute. repeat split; reflexivity. Qed.
